@@ -193,7 +193,8 @@ def run_matrix(ck, b, probe, wd, thorough):
         return obs, classify(obs)
 
     todo_single = []
-    known = {k['key'] for k in getattr(ck, 'known', [])}
+    known_entries = {k['key']: k for k in getattr(ck, 'known', [])}
+    known = set(known_entries)
     if thorough:
         todo_single = [k for ks in accepted_by_ctx.values() for k in ks]
     else:
@@ -212,7 +213,7 @@ def run_matrix(ck, b, probe, wd, thorough):
             return ctx, obs, cl
         nsplit = 0
         for ctx, obs, (fails, same_out) in langlib.pmap(oneb, sorted(batches)):
-            if fails or not same_out:
+            if fails:
                 nsplit += 1
                 todo_single += accepted_by_ctx[ctx]
             else:
@@ -228,6 +229,13 @@ def run_matrix(ck, b, probe, wd, thorough):
     for k, obs, (fails, same_out) in langlib.pmap(ones, todo_single):
         if fails:
             table[k] = 'FAIL ' + json.dumps(fails, sort_keys=True)
+            # a recorded cell that now ALSO fails on a backend it did not fail on before is a different failure: own key
+            ent = known_entries.get('c04:matrix:%s:%s' % k)
+            if ent is not None and ent.get('failing_tools'):
+                for t in sorted(set(fails) - set(ent['failing_tools'])):
+                    failures.append(('c04:matrix:%s:%s:%s' % (k[0], k[1], t),
+                                     'construct %s in context %s: recorded as failing on %s only, now also on %s: %s' % (k[0], k[1], ent['failing_tools'], t, fails[t]),
+                                     dict(construct=k[0], context=k[1], source=singles[k], type_check='accept', internal_failures=fails)))
             failures.append(('c04:matrix:%s:%s' % k,
                              'construct %s in context %s: accepted by the type checker, then %s' % (k[0], k[1], json.dumps(fails, sort_keys=True)),
                              dict(construct=k[0], context=k[1], source=singles[k], reference_checker='(outside the fragment of Types.v)', type_check='accept',
@@ -245,7 +253,8 @@ def run_matrix(ck, b, probe, wd, thorough):
     ck.extra['matrix_size'] = dict(constructs=len(CONSTRUCTS), contexts=len(CONTEXTS), cells=len(keys),
                                    accepted=sum(1 for k in keys if verd[k][0] == 'accept'), failing=len(failures), vm_native_output_differs=outdiff)
     ck.extra['matrix_per_context'] = {c: dict(v) for c, v in per_ctx.items()}
-    ck.extra['matrix_cells_output_differs'] = sorted('%s:%s' % k for k in keys if 'differs' in table.get(k, ''))
+    ck.extra['matrix_cells_output_differs'] = sorted('%s:%s' % k for k in keys if table.get(k, '') == 'ok(output differs)')
+    ck.extra['matrix_contexts_whose_batch_output_differs'] = sorted({k[1] for k in keys if table.get(k, '') == 'ok(batch output differs)'})
     ck.extra['matrix_cells_not_ok'] = {'%s:%s' % k: table[k] for k in keys if not table.get(k, '?').startswith('ok')}
     for k in keys:
         ck.count('matrix:%s:%s' % k, table.get(k, '').startswith(('ok', 'FAIL')))
